@@ -20,4 +20,26 @@ def getSlice (comp : Char → Char) (s : Seq) (f : Feat) : List Char :=
   let joined := (sliceIdx f).map fun i => t[i.toNat]!
   if f.reversed then (joined.reverse).map comp else joined
 
+/-- the real (non-lost) spans of a feature map, i.e. `fmap.without_gaps()` -/
+def realOf (m : List MSpan) : List (Int × Int) :=
+  m.filterMap fun | .span s e => some (s, e) | .lost _ => none
+
+/-- NEW-style `Sequence._mapped` (`core/new_sequence.py`): for a map with exactly one real span it does
+`seq = self._seq[map.start:map.end]` and passes `annotation_offset = map.start` to the constructor, where
+`_coerce_to_seqview` raises `ValueError('cannot set offset …')` when both that offset and the sliced view's
+own offset are non-zero; otherwise (and for 0 or several spans) the residues are those of `getSlice`. -/
+def getSliceNew (comp : Char → Char) (s : Seq) (f : Feat) : Except FErr (List Char) :=
+  match realOf f.spans with
+  | [(a, _)] => if a ≠ 0 ∧ s.v.offset ≠ 0 then .error .valueError else .ok (getSlice comp s f)
+  | _ => .ok (getSlice comp s f)
+
+/-- `Sequence.copy(sliced=True)` at the level of the slice record (old and new class since f9c946a7e):
+`SeqView.copy(sliced=True)` re-creates the view over the truncated parent `seq[a:b]` with the same step and
+no offset, and `Sequence.copy` passes `annotation_offset = self.annotation_offset` (= `parent_start`).
+`copy(sliced=False)` and `copy.deepcopy` keep the record as it is. -/
+def copyView (v : View) : Except Err View :=
+  match parentStart v with
+  | .error e => .error e
+  | .ok ps => mk ((richDictBounds v).2 - (richDictBounds v).1) none none (some v.step) ps
+
 end CogentModel.FeatureView
